@@ -4,10 +4,13 @@ set -e
 cd "$(dirname "$0")"
 export GOFLAGS=-mod=mod GOPROXY=off GOSUMDB=off GOTOOLCHAIN=local CGO_ENABLED=0
 mkdir -p build evidence replays
-cp /repo/go.sum harness/go.sum
-(cd harness && go build -o ../build/constgen ./cmd/constgen)
-./build/constgen /repo > coq/theories/Gen/Consts.v.new 2>/dev/null || true
+REPO=${VERIF_REPO:-/repo}
+sed "s#replace github.com/syndtr/goleveldb => .*#replace github.com/syndtr/goleveldb => $REPO#" harness/go.mod > build/go.mod
+cp $REPO/go.sum build/go.sum
+MODF=$PWD/build/go.mod
+(cd harness && go build -modfile=$MODF -o ../build/constgen ./cmd/constgen)
+./build/constgen $REPO > coq/theories/Gen/Consts.v.new 2>/dev/null || true
 if ! cmp -s coq/theories/Gen/Consts.v.new coq/theories/Gen/Consts.v; then mv coq/theories/Gen/Consts.v.new coq/theories/Gen/Consts.v; else rm -f coq/theories/Gen/Consts.v.new; fi
 (cd coq && { echo "-Q theories GL"; find theories -name '*.v' | sort; } > _CoqProject && coq_makefile -f _CoqProject -o Makefile > /dev/null && ulimit -s unlimited && timeout 7200 make -j16 > ../build/coq_build.log 2>&1 || { tail -50 ../build/coq_build.log; exit 1; })
-for d in harness/cmd/c*/; do n=$(basename $d); [ "$n" = constgen ] && continue; (cd harness && go build -tags verif -o ../build/$n ./cmd/$n); done
+for d in harness/cmd/c*/; do n=$(basename $d); [ "$n" = constgen ] && continue; (cd harness && go build -modfile=$MODF -tags verif -o ../build/$n ./cmd/$n); done
 echo "setup ok"
